@@ -31,6 +31,8 @@ import PK.Model.Machine
 import Mathlib.Tactic.Ring
 import Mathlib.Tactic.FieldSimp
 import Mathlib.Tactic.Positivity
+import Mathlib.Tactic.Linarith
+import Mathlib.Algebra.BigOperators.Ring.List
 import Mathlib.Algebra.Order.Field.Rat
 namespace PK
 
@@ -310,7 +312,7 @@ theorem C18_equity_winners (k : Nat) (hk : 0 < k) (hs : List (Option Int)) (i : 
     · exact absurd h (lt_irrefl 0)
   · intro ⟨h1, h2⟩
     have : ((hs.getD i none).isSome && hs.getD i none == maxOpt hs) = true := by
-      simp [h1, h2]
+      rw [Bool.and_eq_true, beq_iff_eq]; exact ⟨h1, h2⟩
     simp only [this, if_true]
     have hk' : (0 : Rat) < k := by exact_mod_cast hk
     have hw' : (0 : Rat) < ((hs.filter fun h => h.isSome && h == maxOpt hs).length : Rat) := by exact_mod_cast hw
@@ -321,5 +323,352 @@ theorem C18_no_hand_no_share (hands : List (List (Option Int))) (hs : List (Opti
     (h : hs.any Option.isSome = false) : hs ∉ typesInPlay hands := by
   unfold typesInPlay
   simp [h]
+
+/-! #### the shares sum to one -/
+
+theorem foldl_add_eq_sum (l : List Rat) : ∀ a, l.foldl (· + ·) a = a + l.sum := by
+  induction l with
+  | nil => intro a; simp
+  | cons x l ih => intro a; simp only [List.foldl_cons, List.sum_cons]; rw [ih]; ring
+
+theorem lsum_eq (l : List Rat) : l.foldl (· + ·) 0 = l.sum := by
+  rw [foldl_add_eq_sum]; ring
+
+theorem sum_swap {α β} (ts : List α) (is : List β) (f : α → β → Rat) :
+    (is.map fun i => (ts.map fun t => f t i).sum).sum = (ts.map fun t => (is.map fun i => f t i).sum).sum := by
+  induction ts with
+  | nil => simp
+  | cons t ts ih =>
+    simp only [List.map_cons, List.sum_cons]
+    rw [← ih, ← List.sum_map_add]
+
+/-- the best hand of a type somebody holds is held by somebody -/
+theorem maxOpt_attained : ∀ (l : List (Option Int)) (acc : Option Int),
+    (l.foldl (fun acc x => match acc, x with
+      | none, x => x
+      | some a, none => some a
+      | some a, some b => some (max a b)) acc) = acc ∨
+    (l.foldl (fun acc x => match acc, x with
+      | none, x => x
+      | some a, none => some a
+      | some a, some b => some (max a b)) acc) ∈ l := by
+  intro l
+  induction l with
+  | nil => intro acc; exact Or.inl rfl
+  | cons x l ih =>
+    intro acc
+    simp only [List.foldl_cons]
+    cases acc with
+    | none =>
+      rcases ih x with h | h
+      · right; rw [h]; simp
+      · right; simp [h]
+    | some a =>
+      cases x with
+      | none =>
+        rcases ih (some a) with h | h
+        · exact Or.inl h
+        · right; simp [h]
+      | some b =>
+        rcases ih (some (max a b)) with h | h
+        · rw [h]
+          by_cases hab : a ≤ b
+          · right; simp [max_eq_right hab]
+          · have : max a b = a := max_eq_left (by omega)
+            left; rw [this]
+        · right; simp [h]
+
+theorem maxOpt_isSome_of_any : ∀ (l : List (Option Int)) (acc : Option Int),
+    (acc.isSome = true ∨ l.any Option.isSome = true) →
+    (l.foldl (fun acc x => match acc, x with
+      | none, x => x
+      | some a, none => some a
+      | some a, some b => some (max a b)) acc).isSome = true := by
+  intro l
+  induction l with
+  | nil => intro acc h; rcases h with h | h; exact h; simp at h
+  | cons x l ih =>
+    intro acc h
+    simp only [List.foldl_cons]
+    apply ih
+    cases acc with
+    | none =>
+      cases x with
+      | none => right; rcases h with h | h; simp at h; simpa using h
+      | some b => left; rfl
+    | some a => left; cases x <;> rfl
+
+/-- somebody holds the best hand of a hand type in play -/
+theorem winners_pos (hs : List (Option Int)) (h : hs.any Option.isSome = true) :
+    0 < (hs.filter fun x => x.isSome && x == maxOpt hs).length := by
+  have hsome := maxOpt_isSome_of_any hs none (Or.inr h)
+  have hatt := maxOpt_attained hs none
+  change (maxOpt hs).isSome = true at hsome
+  change maxOpt hs = none ∨ maxOpt hs ∈ hs at hatt
+  rcases hatt with h0 | hmem
+  · rw [h0] at hsome; cases hsome
+  · apply List.length_pos_of_mem (a := maxOpt hs)
+    rw [List.mem_filter]
+    exact ⟨hmem, by simp [hsome]⟩
+
+theorem map_getD_range (hs : List (Option Int)) (g : Option Int → Rat) :
+    (List.range hs.length).map (fun i => g (hs.getD i none)) = hs.map g := by
+  apply List.ext_getElem
+  · simp
+  · intro k h1 h2
+    simp only [List.length_map, List.length_range] at h1
+    simp [List.getD_eq_getElem?_getD, h1]
+
+theorem sum_indicator (hs : List (Option Int)) (p : Option Int → Bool) (c : Rat) :
+    (hs.map fun h => if p h then c else 0).sum = c * ((hs.filter p).length : Rat) := by
+  induction hs with
+  | nil => simp
+  | cons x l ih =>
+    simp only [List.map_cons, List.sum_cons, ih, List.filter_cons]
+    by_cases hp : p x = true
+    · simp only [hp, if_true, List.length_cons]; push_cast; ring
+    · have : p x = false := by simpa using hp
+      simp only [this, Bool.false_eq_true, if_false]; ring
+
+/-- one hand type in play hands out exactly `1/k` -/
+theorem typeShare_sum (k : Nat) (hk : 0 < k) (hs : List (Option Int)) (h : hs.any Option.isSome = true) :
+    ((List.range hs.length).map fun i => typeShare k hs i).sum = 1 / (k : Rat) := by
+  have hw := winners_pos hs h
+  unfold typeShare
+  simp only []
+  have := map_getD_range hs (fun x => if (x.isSome && x == maxOpt hs) = true then
+    1 / ((k : Rat) * ((hs.filter fun h => h.isSome && h == maxOpt hs).length : Rat)) else 0)
+  rw [this, sum_indicator hs (fun x => x.isSome && x == maxOpt hs)]
+  have hk' : (k : Rat) ≠ 0 := by exact_mod_cast (Nat.pos_iff_ne_zero.mp hk)
+  have hw' : ((hs.filter fun h => h.isSome && h == maxOpt hs).length : Rat) ≠ 0 := by
+    exact_mod_cast (Nat.pos_iff_ne_zero.mp hw)
+  field_simp
+
+/-- **the shares sum to one** whenever some hand type is in play (every player has a hand of the
+    high type as soon as all cards are given) -/
+theorem C18_equity_sum (n : Nat) (hands : List (List (Option Int)))
+    (hlen : ∀ hs ∈ hands, hs.length = n) (hplay : typesInPlay hands ≠ []) :
+    (equitiesGiven n hands).sum = 1 := by
+  unfold equitiesGiven
+  simp only [lsum_eq]
+  rw [sum_swap (typesInPlay hands) (List.range n) (fun hs i => typeShare (typesInPlay hands).length hs i)]
+  have hk : 0 < (typesInPlay hands).length := List.length_pos_iff.mpr hplay
+  have hall : ∀ hs ∈ typesInPlay hands,
+      ((List.range n).map fun i => typeShare (typesInPlay hands).length hs i).sum = 1 / ((typesInPlay hands).length : Rat) := by
+    intro hs hmem
+    unfold typesInPlay at hmem
+    rw [List.mem_filter] at hmem
+    rw [← hlen hs hmem.1]
+    exact typeShare_sum _ hk hs hmem.2
+  rw [List.map_congr_left hall]
+  simp only [List.map_const', List.sum_replicate, nsmul_eq_mul]
+  have : ((typesInPlay hands).length : Rat) ≠ 0 := by exact_mod_cast (Nat.pos_iff_ne_zero.mp hk)
+  field_simp
+
+/-! ### ICM -/
+
+theorem sum_flatMap' {α} (l : List α) (f : α → List Rat) : (l.flatMap f).sum = (l.map fun x => (f x).sum).sum := by
+  induction l with
+  | nil => simp
+  | cons a l ih => simp [List.flatMap_cons, List.sum_append, ih]
+
+/-- the share of the remaining probability mass held by the players still to be placed -/
+def massOf (p : List Rat) (l : List Nat) : Rat := (l.map fun j => p.getD j 0).sum
+
+theorem massOf_erase (p : List Rat) (l : List Nat) (x : Nat) (hx : x ∈ l) :
+    massOf p (l.erase x) = massOf p l - p.getD x 0 := by
+  unfold massOf
+  have := List.sum_map_erase (fun j => p.getD j 0) hx
+  linarith
+
+theorem massOf_pos (p : List Rat) (l : List Nat) (hp : ∀ j ∈ l, 0 < p.getD j 0) (hne : l ≠ []) :
+    0 < massOf p l := by
+  unfold massOf
+  cases l with
+  | nil => exact absurd rfl hne
+  | cons a l =>
+    simp only [List.map_cons, List.sum_cons]
+    have h1 := hp a (by simp)
+    have h2 : 0 ≤ (l.map fun j => p.getD j 0).sum :=
+      List.sum_nonneg (by
+        intro x hx
+        obtain ⟨j, hj, rfl⟩ := List.mem_map.mp hx
+        exact le_of_lt (hp j (by simp [hj])))
+    linarith
+
+theorem permsK_mem : ∀ (k : Nat) (l o : List Nat), o ∈ permsK k l → o.length = k ∧ ∀ j ∈ o, j ∈ l := by
+  intro k
+  induction k with
+  | zero => intro l o h; simp [permsK] at h; subst h; simp
+  | succ k ih =>
+    intro l o h
+    simp only [permsK, List.mem_flatMap, List.mem_map] at h
+    obtain ⟨x, hx, o', ho', rfl⟩ := h
+    obtain ⟨h1, h2⟩ := ih (l.erase x) o' ho'
+    refine ⟨by simp [h1], ?_⟩
+    intro j hj
+    rcases List.mem_cons.mp hj with rfl | hj
+    · exact hx
+    · exact List.mem_of_mem_erase (h2 j hj)
+
+/-- every finishing order has a non-negative probability -/
+theorem orderProbability_nonneg (p : List Rat) : ∀ (k : Nat) (l : List Nat),
+    (∀ j ∈ l, 0 < p.getD j 0) → l.Nodup → ∀ o ∈ permsK k l, 0 ≤ orderProbability p o (massOf p l) := by
+  intro k
+  induction k with
+  | zero => intro l _ _ o h; simp [permsK] at h; subst h; simp [orderProbability]
+  | succ k ih =>
+    intro l hp hnd o h
+    simp only [permsK, List.mem_flatMap, List.mem_map] at h
+    obtain ⟨x, hx, o', ho', rfl⟩ := h
+    simp only [orderProbability]
+    have hpos := massOf_pos p l hp (List.ne_nil_of_mem hx)
+    have hrec := ih (l.erase x) (fun j hj => hp j (List.mem_of_mem_erase hj)) (hnd.erase x) o' ho'
+    rw [massOf_erase p l x hx] at hrec
+    exact mul_nonneg (div_nonneg (le_of_lt (hp x hx)) (le_of_lt hpos)) hrec
+
+/-- **normalisation**: the probabilities of all finishing orders of the first `k` places add up to one -/
+theorem orderProbability_sum (p : List Rat) : ∀ (k : Nat) (l : List Nat),
+    (∀ j ∈ l, 0 < p.getD j 0) → l.Nodup → k ≤ l.length →
+    ((permsK k l).map fun o => orderProbability p o (massOf p l)).sum = 1 := by
+  intro k
+  induction k with
+  | zero => intro l _ _ _; simp [permsK, orderProbability]
+  | succ k ih =>
+    intro l hp hnd hk
+    have hne : l ≠ [] := by intro h; rw [h] at hk; simp at hk
+    have hpos := massOf_pos p l hp hne
+    simp only [permsK, List.map_flatMap, List.map_map]
+    rw [sum_flatMap']
+    have hinner : ∀ x ∈ l, ((permsK k (l.erase x)).map
+        ((fun o => orderProbability p o (massOf p l)) ∘ fun o' => x :: o')).sum = p.getD x 0 / massOf p l := by
+      intro x hx
+      have hrec := ih (l.erase x) (fun j hj => hp j (List.mem_of_mem_erase hj)) (hnd.erase x)
+        (by rw [List.length_erase_of_mem hx]; omega)
+      rw [massOf_erase p l x hx] at hrec
+      have : ((fun o => orderProbability p o (massOf p l)) ∘ fun o' => x :: o') =
+          fun o' => (p.getD x 0 / massOf p l) * orderProbability p o' (massOf p l - p.getD x 0) := by
+        funext o'; simp [orderProbability]
+      rw [this, List.sum_map_mul_left, hrec, mul_one]
+    rw [List.map_congr_left hinner]
+    have : (l.map fun x => p.getD x 0 / massOf p l) = l.map fun x => (p.getD x 0) * (massOf p l)⁻¹ := by
+      apply List.map_congr_left; intro x _; rw [div_eq_mul_inv]
+    rw [this, List.sum_map_mul_right]
+    show massOf p l * (massOf p l)⁻¹ = 1
+    exact mul_inv_cancel₀ (ne_of_gt hpos)
+
+theorem pct_facts (chips : List Rat) (hc : ∀ c ∈ chips, 0 < c) (hne : chips ≠ []) :
+    (∀ j ∈ List.range chips.length, 0 < (chips.map (· / chips.foldl (· + ·) 0)).getD j 0) ∧
+    massOf (chips.map (· / chips.foldl (· + ·) 0)) (List.range chips.length) = 1 := by
+  rw [lsum_eq]
+  have htot : 0 < chips.sum := by
+    cases chips with
+    | nil => exact absurd rfl hne
+    | cons a l =>
+      simp only [List.sum_cons]
+      have := hc a (by simp)
+      have : 0 ≤ l.sum := List.sum_nonneg (fun x hx => le_of_lt (hc x (by simp [hx])))
+      linarith
+  constructor
+  · intro j hj
+    have hj' := List.mem_range.mp hj
+    simp only [List.getD_eq_getElem?_getD, List.getElem?_map, List.getElem?_eq_getElem hj', Option.map_some,
+      Option.getD_some]
+    exact div_pos (hc _ (List.getElem_mem hj')) htot
+  · unfold massOf
+    have : ((List.range chips.length).map fun j => (chips.map (· / chips.sum)).getD j 0) = chips.map (· / chips.sum) := by
+      apply List.ext_getElem
+      · simp
+      · intro k h1 h2
+        simp only [List.length_map, List.length_range] at h1
+        simp [List.getD_eq_getElem?_getD, h1]
+    rw [this]
+    have : (chips.map (· / chips.sum)) = chips.map (· * (chips.sum)⁻¹) := by
+      apply List.map_congr_left; intro x _; rw [div_eq_mul_inv]
+    rw [this, List.sum_map_mul_right]
+    simp only [List.map_id']
+    exact mul_inv_cancel₀ (ne_of_gt htot)
+
+/-- **ICM values are non-negative** (non-negative payouts, positive chips) -/
+theorem C18_icm_nonneg (payouts chips : List Rat) (hp : ∀ x ∈ payouts, 0 ≤ x) (hc : ∀ c ∈ chips, 0 < c) :
+    ∀ v ∈ icm payouts chips, 0 ≤ v := by
+  intro v hv
+  by_cases hne : chips = []
+  · subst hne; simp [icm] at hv
+  · obtain ⟨hpos, hmass⟩ := pct_facts chips hc hne
+    unfold icm at hv
+    simp only [List.mem_map, List.mem_range] at hv
+    obtain ⟨i, _, rfl⟩ := hv
+    apply foldl_add_nonneg _ _ 0 (le_refl 0)
+    intro x hx
+    obtain ⟨o, ho, rfl⟩ := List.mem_map.mp hx
+    have hprob := orderProbability_nonneg _ payouts.length (List.range chips.length) hpos List.nodup_range o ho
+    rw [hmass] at hprob
+    apply foldl_add_nonneg _ _ 0 (le_refl 0)
+    intro y hy
+    obtain ⟨⟨pay, j⟩, hz, rfl⟩ := List.mem_map.mp hy
+    simp only []
+    split
+    · exact mul_nonneg (hp pay (List.of_mem_zip hz).1) hprob
+    · exact le_refl 0
+
+theorem sum_single_rat (c : Rat) (j n : Nat) (hj : j < n) :
+    ((List.range n).map fun i => if (j == i) = true then c else 0).sum = c := by
+  induction n with
+  | zero => omega
+  | succ n ih =>
+    rw [List.range_succ, List.map_append, List.sum_append]
+    simp only [List.map_cons, List.map_nil, List.sum_cons, List.sum_nil, add_zero]
+    by_cases hjn : j < n
+    · rw [ih hjn]
+      have : (j == n) = false := by simp; omega
+      simp [this]
+    · have hjeq : j = n := by omega
+      subst hjeq
+      have : ((List.range j).map fun i => if (j == i) = true then c else 0) = (List.range j).map fun _ => (0 : Rat) := by
+        apply List.map_congr_left
+        intro i hi
+        have := List.mem_range.mp hi
+        have : (j == i) = false := by simp; omega
+        simp [this]
+      rw [this]
+      simp
+
+/-- **ICM values sum to the prize pool** (at most as many payouts as players, positive chips) -/
+theorem C18_icm_sum (payouts chips : List Rat) (hc : ∀ c ∈ chips, 0 < c)
+    (hk : payouts.length ≤ chips.length) (hne : chips ≠ []) :
+    (icm payouts chips).sum = payouts.sum := by
+  obtain ⟨hpos, hmass⟩ := pct_facts chips hc hne
+  rw [lsum_eq] at hpos hmass
+  unfold icm
+  simp only [lsum_eq]
+  -- swap: sum over players of (sum over orders …) = sum over orders of (sum over players …)
+  rw [sum_swap (permsK payouts.length (List.range chips.length)) (List.range chips.length)
+    (fun o i => ((payouts.zip o).map fun x =>
+      if (x.2 == i) = true then x.1 * orderProbability (chips.map (· / chips.sum)) o 1 else 0).sum)]
+  have horder : ∀ o ∈ permsK payouts.length (List.range chips.length),
+      ((List.range chips.length).map fun i => ((payouts.zip o).map fun x =>
+        if (x.2 == i) = true then x.1 * orderProbability (chips.map (· / chips.sum)) o 1 else 0).sum).sum =
+      orderProbability (chips.map (· / chips.sum)) o 1 * payouts.sum := by
+    intro o ho
+    obtain ⟨hlen, hmem⟩ := permsK_mem _ _ _ ho
+    rw [sum_swap (payouts.zip o) (List.range chips.length)
+      (fun x i => if (x.2 == i) = true then x.1 * orderProbability (chips.map (· / chips.sum)) o 1 else 0)]
+    have hz : ∀ x ∈ payouts.zip o, ((List.range chips.length).map fun i =>
+        if (x.2 == i) = true then x.1 * orderProbability (chips.map (· / chips.sum)) o 1 else 0).sum =
+        x.1 * orderProbability (chips.map (· / chips.sum)) o 1 := by
+      intro x hx
+      have hj := hmem x.2 (List.of_mem_zip hx).2
+      exact sum_single_rat _ _ _ (List.mem_range.mp hj)
+    rw [List.map_congr_left hz, List.sum_map_mul_right]
+    have : ((payouts.zip o).map fun x => x.1) = payouts := by
+      rw [List.map_fst_zip]; omega
+    rw [this]; ring
+  rw [List.map_congr_left horder, List.sum_map_mul_right]
+  have hnorm := orderProbability_sum _ payouts.length (List.range chips.length) hpos List.nodup_range
+    (by simpa using hk)
+  rw [hmass] at hnorm
+  rw [hnorm]; ring
+
 
 end PK
